@@ -535,7 +535,7 @@ PLANS["C07"] = job_plan("C07", ["Wx.Job.C07b", "Wx.Job.C07w", "Wx.Job.C10c"],
     ["Jm.c07_noLost", "Jm.c07_noLost_fails_today", "Jm.c07_tickets", "Jm.c07_tickets_fails_today", "Jm.c10_ran", "Jm.timer_fires", "Jm.expiry_kills"],
     "Oracle: the task never panics; after the job has ended no ticket stays unresolved; no run marker executes twice.",
     partial="the liveness step 'a held flag is eventually raised' is the conjunction of timer_fires / expiry_kills (eager scheduler) and the wait branch; a wait-for-end ticket on a child that never ends legitimately never resolves")
-PLANS["C09"] = job_plan("C09", ["Wx.Job.C09", "Wx.Job.C09b"], ["Jm.handle_refines", "Jm.waitBranch_refines", "Jm.spawn_refines", "Jm.spawnB_refines", "Jm.continue_idle"],
+PLANS["C09"] = job_plan("C09", ["Wx.Job.C09", "Wx.Job.C09b", "Wx.Job.C09c"], ["Jm.handle_refines", "Jm.waitBranch_refines", "Jm.spawn_refines", "Jm.spawnB_refines", "Jm.continue_idle", "Jm.runInv_turns", "Jm.runInv_simInv", "Jm.c09_whole_run"],
     "The run markers record (current, previous) state, so the observable state is compared step by step with the model, which refines the documented machine (specStep).")
 PLANS["C10"] = job_plan("C10", ["Wx.Job.C10b", "Wx.Job.C10c"], ["Jm.c10_fifo", "Jm.c10_priority", "Jm.c10_priority_fails_today", "Jm.c10_ran"],
     "Oracle: normal-priority run markers execute in send order.")
